@@ -266,7 +266,7 @@ def replay_fault(i):
     def helper(model, solver, opts):
         if solver is not NewtonSolver:
             if backup_ok:
-                return real_helper(model, NewtonSolver, {})
+                return real_helper(model, solver, opts)       # the real backup solver (scipy fsolve) on the real model
             return SolverStatus.error, 'injected backup failure', 0
         idx = state['n']
         state['n'] += 1
@@ -284,7 +284,7 @@ def replay_fault(i):
                 try:
                     r = wntr.sim.WNTRSimulator(wn).run_sim(backup_solver=(scipy.optimize.fsolve if backup and inject else None), convergence_error=conv if inject else False)
                     return r, None, [str(x.message) for x in w]
-                except RuntimeError as ex:
+                except Exception as ex:
                     return None, ex, []
         finally:
             core._solver_helper = real_helper
@@ -294,6 +294,8 @@ def replay_fault(i):
     if ref is None:
         return 'the run without any failed step raised %s: %s' % (type(ref_exc).__name__, ref_exc)
     res, exc, warned = go(True)
+    if exc is not None and not isinstance(exc, RuntimeError):
+        return 'run_sim raised %s: %s' % (type(exc).__name__, exc)
     hit = fail_at >= 0 and state['n'] > fail_at and not (backup and backup_ok)
     if hit:
         if conv and exc is None:
